@@ -106,6 +106,8 @@ class Recorder:
         self.keep = []
         # oracle
         self.regcodes = {}        # id(code) -> label id   (codes of functions registered so far)
+        self.regkeys = {}         # (blk, line) -> label id of the registered code owning that key
+        self.alias = {}           # (label, line) -> LINE events of *unregistered* code the callback cannot tell apart
         self.counts = {}
         self.inflight = {}
         self.midflight_disable = False
@@ -134,6 +136,9 @@ class Recorder:
             self.shadow.add_function(fn)
         self.regcodes[id(fn.__code__)] = self.label_of(fn.__code__)
         self.keep.append(fn.__code__)
+        blk = self.blocks.blk(fn.__code__.co_code)
+        for l in code_lines(fn.__code__):
+            self.regkeys.setdefault((blk, l), self.label_of(fn.__code__))
         self.ops.append('add %d' % self.fidx[id(fn)])
 
     def label_of(self, c):
@@ -192,6 +197,10 @@ class Recorder:
                         self.inflight[fr] = (lab, line)
                     else:
                         self.inflight.pop(fr, None)
+                elif event == 'line':
+                    owner = self.regkeys.get(((base, pad), line))
+                    if owner is not None:
+                        self.alias[(owner, line)] = self.alias.get((owner, line), 0) + 1
         return self.tracer
 
     def enable_by_count(self):
@@ -294,6 +303,7 @@ def run_case(case, delta):
         rec.count = 1
         rec.disable_by_count()
     oracle = {'%d:%d' % k: v for k, v in sorted(rec.counts.items())}
+    alias = {'%d:%d' % k: v for k, v in sorted(rec.alias.items())}
     # ---- run B
     labelsB = Interner()
     blocksB = Blocks()
@@ -328,7 +338,7 @@ def run_case(case, delta):
     hashes = [h for hs in p.code_hash_map.values() for h in hs]
     collision = len(hashes) != len(set(hashes))
     return {'ops': rec.ops, 'resA': resA, 'resB': resB, 'real_snaps': snaps, 'real_blks': blks,
-            'oracle': oracle, 'midflight_disable': rec.midflight_disable, 'nevents': rec.nevents,
+            'oracle': oracle, 'alias': alias, 'midflight_disable': rec.midflight_disable, 'nevents': rec.nevents,
             'collision': collision, 'labels': {str(v): list(k) for k, v in labels.d.items()}}
 
 
